@@ -8,6 +8,7 @@ import (
 	"strings"
 	"time"
 
+	p9p "github.com/frobnitzem/go-p9p"
 	"pgregory.net/rapid"
 
 	"verifharness/internal/harn"
@@ -25,6 +26,7 @@ type HostileStep struct {
 }
 
 type HostileCase struct {
+	Honor      bool // buffered connection that honours deadlines (a write attempted after the connection's deadline fails)
 	Rendezvous bool
 	MSize      uint32
 	Steps      []HostileStep
@@ -32,8 +34,9 @@ type HostileCase struct {
 
 func GenHostile(t *rapid.T) HostileCase {
 	c := HostileCase{Rendezvous: rapid.Bool().Draw(t, "rendezvous"), MSize: rapid.SampledFrom([]uint32{0, 256, 4096}).Draw(t, "msize")}
+	c.Honor = !c.Rendezvous && rapid.Bool().Draw(t, "honor")
 	step := rapid.Custom(func(t *rapid.T) HostileStep {
-		st := HostileStep{Op: rapid.SampledFrom([]string{"call", "call", "call", "call", "reply", "reply", "reply", "stray", "malformed", "cancelcall", "fault"}).Draw(t, "op")}
+		st := HostileStep{Op: rapid.SampledFrom([]string{"call", "call", "call", "call", "reply", "reply", "reply", "stray", "malformed", "cancelcall", "deadlinecall", "deadlinecall", "fault"}).Draw(t, "op")}
 		st.Which = rapid.IntRange(0, 15).Draw(t, "which")
 		st.K = rapid.IntRange(0, 3).Draw(t, "k")
 		switch st.Op {
@@ -47,6 +50,9 @@ func GenHostile(t *rapid.T) HostileCase {
 			st.Variant = rapid.SampledFrom([]string{"badprefix", "oversize", "garbage", "shortbody", "type106", "emptybody"}).Draw(t, "variant")
 		case "fault":
 			st.Variant = rapid.SampledFrom([]string{"close", "ioerr", "neterr", "localclose", "ctxcancel"}).Draw(t, "variant")
+		case "deadlinecall":
+			st.Kind = rapid.SampledFrom(callKinds).Draw(t, "kind")
+			st.Variant = rapid.SampledFrom([]string{"expired", "expired", "short", "short", "long"}).Draw(t, "variant")
 		}
 		return st
 	})
@@ -60,7 +66,7 @@ func GenHostile(t *rapid.T) HostileCase {
 }
 
 func RunHostile(c HostileCase) harn.Result {
-	r, err := newRig(c.Rendezvous, c.MSize)
+	r, err := newRigOpt(c.Rendezvous, c.Honor, c.MSize)
 	if err != nil {
 		return harn.Fail("session setup failed: %v", err)
 	}
@@ -80,6 +86,7 @@ func RunHostile(c HostileCase) harn.Result {
 		case <-time.After(200 * time.Millisecond):
 		}
 	}
+	usedLong := false
 	next := uint32(0x2000)
 	dead := false      // a fatal event happened: every pending and later call must fail
 	uncertain := false // a stray reply was sent: the client may ignore it or give up on the session
@@ -298,6 +305,59 @@ func RunHostile(c HostileCase) harn.Result {
 			// a frame that cannot be understood may be skipped or may end the session; an
 			// impossible length prefix desynchronises the stream for good
 			uncertain = true
+		case "deadlinecall":
+			// a call whose own context carries a deadline that is already over, or over before
+			// anybody answers: it must return promptly with an error and leave the session
+			// usable for everybody else.  (Only on connections where a write cannot block:
+			// a deadline expiring in the middle of a blocked write is the known finding D17.)
+			if dead || c.Rendezvous {
+				continue
+			}
+			next++
+			var dctx context.Context
+			var dcancel context.CancelFunc
+			switch {
+			case st.Variant == "expired":
+				dctx, dcancel = context.WithDeadline(context.Background(), time.Now().Add(-time.Second))
+			case st.Variant == "long" && c.Honor && !usedLong:
+				// long enough that the request is certainly written before it expires; the
+				// harness then waits until it is over, after which calls without a deadline
+				// of their own must still work on this deadline-honouring connection
+				usedLong = true
+				dctx, dcancel = context.WithTimeout(context.Background(), 300*time.Millisecond)
+			case c.Honor:
+				// a short deadline on a connection that honours it can expire between WriteFcall's
+				// own check and the write: that is the known finding D17, not what is exercised here
+				continue
+			default:
+				dctx, dcancel = context.WithTimeout(context.Background(), 300*time.Microsecond)
+			}
+			p := r.startCtx(st.Kind, next, dctx, dcancel)
+			p.abandoned = true
+			all = append(all, p)
+			trace = append(trace, fmt.Sprintf("call %s m%#x with %s deadline", st.Kind, next, st.Variant))
+			if !p.wait(bound) {
+				return fail("call %s with an %s deadline of its own did not return within %v", st.Kind, st.Variant, bound)
+			}
+			if p.res.err == nil {
+				return fail("call %s with an %s deadline returned success although nobody answered it", st.Kind, st.Variant)
+			}
+			time.Sleep(500 * time.Microsecond) // let the deadline pass for good
+			if st.Variant == "long" {
+				classes["own_deadline_long_on_honouring_conn"] = true
+			}
+			// its request may or may not have reached the server
+			for deadline := time.Now().Add(2 * time.Millisecond); time.Now().Before(deadline); {
+				f, ok, _ := r.srv.Next(time.Millisecond)
+				if ok && f.Msg != nil {
+					if mk, okm := requestMarker(f.Msg); okm && mk == p.marker {
+						p.seen, p.tag = true, f.Msg.Tag
+						held = append(held, p)
+						break
+					}
+				}
+			}
+			classes["own_deadline_"+st.Variant] = true
 		case "cancelcall":
 			if dead {
 				continue
@@ -382,6 +442,8 @@ func RunHostile(c HostileCase) harn.Result {
 	return res
 }
 
+func p9pFid(i int) p9p.Fid { return p9p.Fid(i) }
+
 func indexOf(kind string) int {
 	for i, k := range callKinds {
 		if k == kind {
@@ -389,4 +451,86 @@ func indexOf(kind string) int {
 		}
 	}
 	return 0
+}
+
+// ---- known finding D17: a per-call *deadline* that expires while the request is
+// being written poisons the session for every other call
+
+type DeadlineCase struct {
+	DeadlineUs int // the victim call's own deadline
+	Later      int // further calls issued afterwards (no deadline of their own)
+}
+
+func RunWriteDeadline(c DeadlineCase) harn.Result {
+	r, err := newRig(true, 0) // rendezvous: a write blocks while the peer is not reading
+	if err != nil {
+		return harn.Fail("session setup failed: %v", err)
+	}
+	defer r.close()
+	res := harn.Result{NonTrivial: true, Classes: []string{"d17_probe"}}
+	r.srv.Pause()
+	// the peer's reader is already waiting inside a Read and will take one more frame
+	// before it notices the pause: feed it a throw-away call that is then abandoned
+	{
+		tctx, tcancel := context.WithCancel(context.Background())
+		tdone := make(chan error, 1)
+		go func() { tdone <- r.sess.Clunk(tctx, 6) }()
+		time.Sleep(2 * time.Millisecond)
+		tcancel()
+		<-tdone
+	}
+	ctx, cancel := context.WithTimeout(context.Background(), time.Duration(c.DeadlineUs)*time.Microsecond)
+	defer cancel()
+	t0 := time.Now()
+	verr := r.sess.Clunk(ctx, 7)
+	if verr == nil {
+		return harn.Fail("a call whose request nobody read returned success")
+	}
+	if d := time.Since(t0); d > bound {
+		return harn.Fail("a call with a %dµs deadline returned only after %v", c.DeadlineUs, d)
+	}
+	r.srv.Resume()
+	// serve whatever arrives correctly from now on
+	stop := make(chan struct{})
+	defer close(stop)
+	go func() {
+		for {
+			f, ok, err := r.srv.Next(50 * time.Millisecond)
+			if !ok {
+				if err != nil {
+					return
+				}
+				select {
+				case <-stop:
+					return
+				default:
+					continue
+				}
+			}
+			if f.Msg != nil && f.Msg.Kind == refwire.Tclunk {
+				r.srv.Send(&refwire.Msg{Kind: refwire.Rclunk, Tag: f.Msg.Tag})
+			}
+		}
+	}()
+	for i := 0; i < c.Later; i++ {
+		cctx, ccancel := context.WithCancel(context.Background())
+		done := make(chan error, 1)
+		go func() { done <- r.sess.Clunk(cctx, p9pFid(100+i)) }()
+		var lerr error
+		select {
+		case lerr = <-done:
+		case <-time.After(bound):
+			ccancel()
+			res.Known = append(res.Known, "D17-write-deadline-poisons-session")
+			return res
+		}
+		ccancel()
+		if lerr != nil {
+			// the earlier call's expired deadline must not disturb this one: on the pinned
+			// tree the buffered writer keeps the timeout error for ever / a partial frame is on the wire
+			res.Known = append(res.Known, "D17-write-deadline-poisons-session")
+			return res
+		}
+	}
+	return res
 }
